@@ -67,7 +67,8 @@ P["C14"] = dict(cat="proof",
     text="Coq model rep_matrix / is_spanning_forest; exhaustive small multigraphs x offered forests (forests, non-forests, partial) x "
          "coforest orders x reversals: matrix = model, transpose output = transpose, forest flag = definition. Edge-list files: Coq grammar "
          "model (EdgeModel.v, print/parse round trip proved) against CMRgraphCreateFromEdgeList on generated files (nodes by first "
-         "appearance, line order, forest/coforest labels, node labels).",
+         "appearance, line order, forest/coforest labels, node labels), and against the output bytes of cmr-graphic -c / cmr-network -c "
+         "(judge_cligraph: parsed output = rep_matrix of the parsed input).",
     note=NOTE_COMMON + "edge lists with a repeated edge are outside the domain (not an edge set); labels outside the documented forms are not generated.",
     tech="Coq executable definition + exhaustive differential correspondence", ref="DESIGN.md C14")
 P["C17"] = dict(cat="proof",
@@ -102,11 +103,12 @@ P["C04"] = dict(cat="proof",
 P["C10"] = dict(cat="proof",
     text="Coq (all shapes): the definition-level oracles are invariant under exactly the transforms the judge accepts - tu_bf (= the "
          "determinant definition, via MathComp) under row/column permutation, transposition, +-1 scaling, submatrices, adding a zero / "
-         "unit / parallel line, block-diagonal composition; sp_greedy (= SP-reducibility) and balanced_bf likewise (scaling for ternary "
+         "unit / parallel line, block-diagonal composition, and pivots on +-1 entries (TuPivot.v: TU is preserved and reflected; the ternary "
+         "pivot model of CMRchrmatTernaryPivot keeps tu_bf); sp_greedy (= SP-reducibility) and balanced_bf likewise (scaling for ternary "
          "matrices). judge_rel is proved to check that M' is the stated transform of M and to demand equal / swapped / yes=>yes verdicts. "
          "Tie: ten recognizers x five decomposition strategies on transformed presentations of random, structured and large (up to ~40x40) matrices.",
-    note=NOTE_COMMON + "closure of graphicness / network / regularity under these transforms and invariance under pivots are classical "
-         "facts not formalised here (the judge demands them, the theorems cover TU, SP and balancedness); 'Camion-signed' is compared only "
+    note=NOTE_COMMON + "closure of graphicness / network / regularity under these transforms and of regularity under binary pivots are classical "
+         "facts not formalised here (the judge demands them, the theorems cover TU incl. pivots, SP and balancedness); 'Camion-signed' is compared only "
          "when a presentation is reported TU.",
     tech="Coq closure theorems for the oracles + Coq-checked transform relation + metamorphic comparison of verdicts", ref="DESIGN.md C10")
 P["C11"] = dict(cat="proof",
@@ -165,8 +167,9 @@ P["C20"] = dict(cat="proof",
          "Coq grammar of doc/file-formats.md and read back; readers are compared with the Coq parser on valid and malformed byte strings.",
     note=NOTE_COMMON + "fscanf token-prefix quirks (e.g. '1-', '+1', '1e3') and negative header counts are excluded or recorded as findings; matrix and "
          "submatrix utilities (transpose, permute, slice, support, conversions, equality tests, 1-sum, submatrix print/read/slice/unslice) "
-         "and the edge-list reader are compared with dense Coq models (MatModel.v, EdgeModel.v); double-valued matrices and value-by-value "
-         "comparison of the cmr-matrix / cmr-k-ary outputs are not covered (the tools run under C11's sanitized CLI stream).",
+         "and the edge-list reader are compared with dense Coq models (MatModel.v, EdgeModel.v); cmr-matrix is compared byte-file to byte-file "
+         "(judge_climat: -i/-o/-S/-t/-c/-C); double-valued matrices and cmr-k-ary outputs are not compared value by value (they run under "
+         "C11's sanitized CLI stream).",
     tech="Coq parser/printer model + CSR well-formedness predicate run on every output", ref="DESIGN.md C20")
 
 ORDER = ["C%02d" % i for i in range(1, 21)]
